@@ -55,3 +55,47 @@ def _v7(repo, mod):
     fn = repo.func(EX, "TestSuiteWriter.write")
     s = find_stmt(fn, lambda s: isinstance(s, ast.Assign) and norm(s.targets[0]) == "names" and "join" in norm(s.value))
     return insert_before(mod, s, "_unused = sorted({m for m in by_module})")
+
+
+A2A = "pynguin.assertion.assertion_to_ast"
+TS = "pynguin.analyses.typesystem"
+
+
+@variant("C16", "asserted-set-in-hash-order", A2A, "C16.set-order", "set values rendered in iteration order (the repaired defect)")
+def _v8(repo, mod):
+    fn = repo.func(A2A, "_value_to_cst")
+    c = find_node(fn, lambda n: isinstance(n, ast.Call) and norm(n.func) == "sorted" and norm(n.args[0]) == "value")
+    return replace_node(mod, c, "list(value)")
+
+
+@variant("C16", "literal-set-in-hash-order", LG, "C16.set-order", "collection literal written back in iteration order (the repaired defect)")
+def _v9(repo, mod):
+    fn = repo.func(LG, "_collection_to_cst")
+    c = find_node(fn, lambda n: isinstance(n, ast.Call) and norm(n.func) == "sorted" and norm(n.args[0]) == "value")
+    return replace_node(mod, c, "value")
+
+
+@variant("C16", "superclasses-in-hash-order", TS, "C16.set-order", "ancestors of the inheritance graph put into an OrderedSet as they come (the repaired defect)")
+def _v10(repo, mod):
+    fn = repo.func(TS, "TypeSystem.get_superclasses")
+    s = find_stmt(fn, lambda s: isinstance(s, ast.AnnAssign) and norm(s.target) == "result")
+    return replace_node(mod, s.value, "OrderedSet(ancestors)")
+
+
+@variant("C16", "first-subclass-picked", TS, "C16.set-order", "an arbitrary element of the descendants set is chosen")
+def _v11(repo, mod):
+    fn = repo.func(TS, "TypeSystem.get_subclasses")
+    s = find_stmt(fn, lambda s: isinstance(s, ast.AnnAssign) and norm(s.target) == "result")
+    return replace_node(mod, s.value, "OrderedSet([next(iter(descendants))])")
+
+
+@variant("C16", "hash-picks-crossover-side", CROSS, "C16.hash-value", "a string hash decides which parent leads")
+def _v12(repo, mod):
+    fn = repo.func(CROSS, "SinglePointRelativeCrossOver.cross_over")
+    return insert_before(mod, fn.body[-1], "_lead = hash(repr(parent_1)) % 2")
+
+
+@variant("C16", "twin-hash-cached", TS, None, "a hash stored in a *_hash attribute stays silent")
+def _v13(repo, mod):
+    fn = repo.func(TS, "TypeSystem.get_superclasses")
+    return insert_before(mod, fn.body[-1], "self._last_hash = hash(klass)")
